@@ -82,7 +82,7 @@ INDENTS = ["  ", "  ", "  ", " ", "    ", "\t", " \t", "   "]
 ROS_WORDS = ["interface", "bridge", "port", "ip", "address", "route", "system", "identity", "user", "group", "aaa",
              "x-y", "snmp", "community"]
 ROS_LEAVES = ["add name=x", "add name=y disabled=no", "set a=b", "set [ find default=yes ] k=v", "add address=10.0.0.1/24",
-              "remove 1", "x"]
+              "remove 1", "x", "add comment=a\\", "set note=x\\y \\"]      # rows ending in a backslash are rows, not wrapped lines
 
 
 # --------------------------------------------------------------------------------------
